@@ -240,7 +240,11 @@ impl AsCborValue for Header {
                 ));
             }
         }
-        let mut seen = BTreeSet::new();
+        // The labels of the typed fields emitted above are taken too.
+        let mut seen: BTreeSet<Label> = map
+            .iter()
+            .filter_map(|(l, _v)| Label::from_cbor_value(l.clone()).ok())
+            .collect();
         for (label, value) in self.rest.into_iter() {
             if seen.contains(&label) {
                 return Err(CoseError::DuplicateMapKey);
